@@ -1276,7 +1276,14 @@ class DigitalWaveform(Generic[TDigitalState]):
             )
 
         start_index = arg_to_uint("start index", start_index, 0)
+        if start_index > len(array):
+            raise create_start_index_too_large_error(start_index, "input array length", len(array))
+
         sample_count = arg_to_uint("sample count", sample_count, len(array) - start_index)
+        if start_index + sample_count > len(array):
+            raise create_start_index_or_sample_count_too_large_error(
+                start_index, sample_count, "input array length", len(array)
+            )
         signal_count = arg_to_uint("signal count", signal_count, array_signal_count)
 
         if signal_count != array_signal_count:
